@@ -289,6 +289,8 @@ var frags = []*Frag{
 	{Name: "syntax-keys", Jobs: []FragJob{{ID: "{P}syn", Body: "    runs-on: ubuntu-latest\n    unknown-key: 1\n    timeout-minutes: abc\n    steps:\n      - run: echo\n        uses: actions/checkout@v4\n      - name: nothing\n      - run: echo\n        unknown: 2\n"}}},
 	{Name: "services-container", Clean: true, Jobs: []FragJob{{ID: "{P}svc", Body: "    runs-on: ubuntu-latest\n    container:\n      image: node:20\n      ports: [80]\n      volumes: ['/a:/b']\n    services:\n      db:\n        image: postgres\n        ports: ['5432:5432']\n    steps:\n      - run: echo ${{ job.services.db.ports['5432'] }}\n"}}},
 	{Name: "scripts-bash", Scripts: true, Clean: true, Jobs: []FragJob{{ID: "{P}sb", Body: "    runs-on: ubuntu-latest\n    steps:\n      - run: echo $FOO ${{ github.sha }} SC2086\n      - run: |\n          for f in *; do\n            echo $f ${{ matrix.x }} ${{ github.ref }} SC2231\n          done\n      - run: echo ok\n        shell: sh\n"}}},
+	// an issue the tool reports as a sparse JSON object (no column, no level), after steps with ordinary issues
+	{Name: "scripts-sparse-report", Scripts: true, Clean: true, Jobs: []FragJob{{ID: "{P}ssr", Body: "    runs-on: ubuntu-latest\n    steps:\n      - run: echo $A SC2086 and SC2154\n      - run: echo sparse SC2998\n      - run: echo $B SC2086 then SC2998\n"}}},
 	{Name: "scripts-python", Scripts: true, Clean: true, Jobs: []FragJob{{ID: "{P}sp", Body: "    runs-on: ubuntu-latest\n    defaults:\n      run:\n        shell: python\n    steps:\n      - run: |\n          import os\n          print(${{ github.run_id }}) PF01\n      - run: print('x') PF03\n      - run: echo not python\n        shell: bash\n"}}},
 	{Name: "scripts-windows", Scripts: true, Clean: true, Jobs: []FragJob{{ID: "{P}sw", Body: "    runs-on: windows-latest\n    steps:\n      - run: Write-Host hi SC2154\n      - run: echo $X SC2086\n        shell: bash\n"}}},
 	{Name: "scripts-exprlabel", Scripts: true, Clean: true, Jobs: []FragJob{{ID: "{P}sx", Body: "    strategy:\n      matrix:\n        os: [ubuntu-latest, windows-latest]\n    runs-on: ${{ matrix.os }}\n    steps:\n      - run: echo $Y SC2086\n"}}},
